@@ -131,8 +131,26 @@ def exhaustive_cont_specs(tier, seed):
 RATES = [0, 0.25, 1 / 3, 0.5, 0.5, 2 / 3, 0.75, 1]
 
 
+def just_below_threshold_spec(seed):
+    """A large sample (n = 2001) whose missing-value modality, strongly associated with the target, holds a share of
+    the rows just below min_freq_mod (100 / 2001 = 0.049975 < 0.05; 200 / 2001 = 0.09995 < 0.1): kept apart it would be
+    the best grouping, but it is not viable -- a share is compared as it is, not as it prints with 4 decimals."""
+    rng = random.Random(seed)
+    k, thr = rng.choice([(100, [1, 20]), (200, [1, 10])])
+    pos = rng.randint(80, 95) * k // 100
+    rest = 2001 - k
+    sizes = [rest // 3, rest // 3, rest - 2 * (rest // 3)]
+    rates = sorted(rng.sample([5, 12, 20, 28, 35], 3))
+    cells = [[k - pos, pos]] + [[sz - sz * r // 100, sz * r // 100] for sz, r in zip(sizes, rates)]
+    params = {'sort_by': rng.choice(['cramerv', 'tschuprowt']), 'min_freq_mod': thr, 'max_n_mod': rng.choice([3, 4]),
+              'dropna': True, 'output_dtype': rng.choice(['float', 'str']), 'verbose': False}
+    return table_spec(cells, None, cont=False, kinds=[rng.choice(['quanti', 'ordinal', 'categ'])], params=params, shuffle_seed=seed)
+
+
 def random_spec(seed):
     """A random frame: 1-3 features, n in 16..64, tie-biased, optional NaN / dev."""
+    if seed % 40 == 17:
+        return just_below_threshold_spec(seed)
     rng = random.Random(seed)
     cont = rng.random() < 0.3
     n = rng.randint(16, 64)
